@@ -7,7 +7,8 @@ import random
 PROGRAMS = [
     ("", ""), ("x = 1", ""), ("print('a')", "a\n"), ("print('a', end='')", "a"), ("print()", "\n"),
     ("print('a  ')\nprint()\nprint(' b')", "a  \n\n b\n"), ("import sys\nsys.stdout.write('w')", "w"),
-    ("print('a', 'b', sep='-')", "a-b\n"), ("print('x\\n\\n')", "x\n\n\n"), ("print('  ')", "  \n"),
+    ("print('a', 'b', sep='-')", "a-b\n"), ("print('bye')\nraise SystemExit", "bye\n"),
+    ("import sys\nprint('x', end='')\nsys.exit(0)", "x"), ("print('e')\n1/0", "e\n"), ("print('x\\n\\n')", "x\n\n\n"), ("print('  ')", "  \n"),
 ]
 INPUT_PROGRAMS = [
     ("v = input('p')\nprint(v)", 1), ("a = input()\nb = input('q')\nprint(a + b)", 2), ("v = input('only prompt')", 1),
